@@ -183,6 +183,36 @@ def classify_exception(exc):
     )
 
 
+_DIGEST_ERRORS = (IndexError, KeyError, AttributeError, TypeError, ValueError, ArithmeticError, AssertionError)
+
+
+def _oracle_frame(tb):
+    """Innermost frame inside a property module (the oracle code), if any."""
+    found = None
+    for fs in traceback.extract_tb(tb):
+        fn = fs.filename.replace("\\", "/")
+        if "/pbt/props/" in fn or fn.endswith("/pbt/aged.py") or "/pbt/ref/" in fn:
+            found = fs
+    return found
+
+
+def classify_oracle_crash(exc):
+    """The oracle itself tripped over what the library handed back (a result of the wrong shape, a file without the
+    expected record, ...).  On the unchanged tree this never happens (it would be a harness bug either way); on a
+    changed library it means the output is so malformed that the oracle cannot even read it - reported as a violation
+    rather than as a harness error.  Environment problems (OSError, MemoryError without a library frame) stay errors."""
+    if not isinstance(exc, _DIGEST_ERRORS) or isinstance(exc, OSError):
+        return None
+    fs = _oracle_frame(exc.__traceback__)
+    if fs is None:
+        return None
+    return Violation(
+        f"oracle-cannot-digest:{type(exc).__name__}@{fs.name}",
+        f"the oracle failed on the library's output - {type(exc).__name__}: {str(exc)[:200]} "
+        f"(at {os.path.basename(fs.filename)}:{fs.lineno})",
+    )
+
+
 def run_check(sub, case):
     """Run one check; returns None or a Violation.  Harness problems propagate."""
     try:
@@ -195,7 +225,7 @@ def run_check(sub, case):
     except (KeyboardInterrupt, SystemExit):
         raise
     except Exception as exc:  # noqa: BLE001 - MemoryError included: the workers run under an address-space limit
-        v = classify_exception(exc)
+        v = classify_exception(exc) or classify_oracle_crash(exc)
         if v is None:
             raise
         return v
